@@ -9,6 +9,7 @@ CONSTANTS
   Retention <- TraceRetention
   Lookback <- TraceLookback
   MaxPast <- TraceMaxPast
+  U <- TraceU
   OOT <- TraceOOT
   MFD <- TraceMFD
   Dev <- TraceDev
@@ -357,10 +358,11 @@ def observer_profiles():
     q = [dict(n=10, steps=60, backend="mixed", regime="causal", profile="members", observers=1, groups=2),
          dict(n=10, steps=60, backend="sql", regime="causal", profile="members", observers=1, retention=2),
          dict(n=8, steps=50, backend="mem", regime="causal", profile="members", observers=1, restarts=0)]
-    q += [dict(n=6, backend="mixed", profile="leaf"), dict(n=8, backend="mixed", profile="welcome")]
+    q += [dict(n=6, backend="mixed", profile="leaf"), dict(n=8, backend="mixed", profile="welcome"), dict(n=8, backend="mixed", profile="devices")]
     t = [dict(n=50, steps=70, backend=["mem", "sql", "mixed"][i % 3], regime="causal", profile="members", observers=1,
               retention=[5, 2, 1, 3][i % 4]) for i in range(8)]
-    t += [dict(n=50, backend="mixed", profile="leaf"), dict(n=50, backend="mixed", profile="welcome")]
+    t += [dict(n=50, backend="mixed", profile="leaf"), dict(n=50, backend="mixed", profile="welcome"),
+          dict(n=50, backend="mixed", profile="devices"), dict(n=30, backend="sql", profile="devices")]
     return {"quick": q, "thorough": t}
 
 
@@ -546,7 +548,7 @@ ASSUME_ADV = ["the adversary is a real group member whose client bypasses mdk's 
 def plan_C04(ctx, rt):
     pr = adversary_profiles()
     # late wrappers of a removed member whose leaf has been taken over by a newcomer (authentication against the sender's epoch)
-    pr["quick"] = pr["quick"] + [dict(n=10, backend="mixed", profile="leaf")]
+    pr["quick"] = pr["quick"] + [dict(n=10, backend="mixed", profile="leaf"), dict(n=6, backend="mixed", profile="devices")]
     pr["thorough"] = pr["thorough"] + [dict(n=60, backend=["mixed", "mem", "sql"][i], profile="leaf", maxpast=[5, 2, 5][i]) for i in range(3)]
     return run_marmot(ctx, rt, invariants=["InvC04"], properties=["ActC04", "ActC02"], view="C04", mc=MC_CORE,
                       profiles=pr, nontrivial=nt_forge, assumptions=ASSUME_MARMOT + ASSUME_ADV,
@@ -558,7 +560,7 @@ def plan_C04(ctx, rt):
 def plan_C05(ctx, rt):
     pr = adversary_profiles()
     # queued proposals of other members swept up by admins' auto-commits and by a non-admin's self_update()
-    pr["quick"] = pr["quick"] + [dict(n=10, backend="mixed", profile="props")]
+    pr["quick"] = pr["quick"] + [dict(n=10, backend="mixed", profile="props"), dict(n=6, backend="mixed", profile="devices")]
     pr["thorough"] = pr["thorough"] + [dict(n=60, backend=["mixed", "mem", "sql"][i], profile="props", restarts=i % 2) for i in range(3)]
     return run_marmot(ctx, rt, invariants=["InvC05"], view="C05", mc=MC_CORE,
                       profiles=pr, nontrivial=lambda h: nt_raw(h) or any(d["op"] == "Leave" and d["res"] == "Ok" for d in h), assumptions=ASSUME_MARMOT + ASSUME_ADV,
